@@ -13,7 +13,7 @@
    interfere. *)
 From Coq Require Import List ZArith Bool Lia.
 From RtoscV Require Import Pretty.Tok Pretty.FloatFmt Pretty.PrintModel Pretty.ScanModel
-  Pretty.PrettyProofs Pretty.RangeProofs Pretty.RunProofs Pretty.ListProofs.
+  Pretty.PrettyProofs Pretty.RangeProofs Pretty.RunProofs Pretty.ListProofs Pretty.ArrayProofs.
 Import ListNotations.
 Local Open Scope Z_scope.
 
@@ -131,8 +131,8 @@ End Loops.
 Section Msg.
 Variables dec2f dec2d : list Z -> Z.
 
-Theorem message_reads_tl o addr vs text w :
-  compress o = true -> good_addr addr -> Forall goodc0 vs -> Z.of_nat (length vs) < 2 ^ 31 ->
+Theorem message_reads_tl_z o zf zd addr vs text w :
+  compress o = true -> zchoice zf zd -> good_addr addr -> Forall (goodc o zf zd) vs -> Z.of_nat (length vs) < 2 ^ 31 ->
   print_message o addr vs 0 = Some (text, w) ->
   exists slots,
     expand slots = Some vs /\ (exists sfx, text = addr ++ sfx) /\
@@ -140,7 +140,7 @@ Theorem message_reads_tl o addr vs text w :
     count_printed_arg_vals_of_msg dec2f dec2d (text ++ 10 :: tl) = Ok (true, Z.of_nat (length slots)) /\
     scan_message dec2f dec2d (text ++ 10 :: tl) (Z.of_nat (length slots)) = Ok (addr, slots, tl).
 Proof.
-  intros Hon [[ar Ea] Hns] Hg Hlen Hp. unfold print_message in Hp.
+  intros Hon Hz0 [[ar Ea] Hns] Hg' Hlen Hp. unfold print_message in Hp.
   destruct (print_vals_loop (S (length vs)) o vs None 0 (Z.of_nat (length vs)) addr true 0
               (0 + (len addr + 1)) (if 0 + (len addr + 1) =? 0 then 0 else 1)) as [[t w']|] eqn:El;
     [|discriminate].
@@ -164,10 +164,7 @@ Proof.
       destruct Htl as [->|[r ->]]; [reflexivity|].
       rewrite skip_comments_ws_no by lia. reflexivity.
     + reflexivity.
-  - assert (Hz0 : zchoice 0 0) by (split; left; reflexivity).
-    assert (Hg' : Forall (goodc o 0 0) (v :: vs'))
-      by (eapply Forall_impl; [|exact Hg]; intros a Ha; left; exact Ha).
-    apply (print_loop_iseq dec2f dec2d o Hon 0 0 Hz0) in El; try assumption; try lia; try discriminate.
+  - apply (print_loop_iseq dec2f dec2d o Hon zf zd Hz0) in El; try assumption; try lia; try discriminate.
     destruct El as (its & sfx & -> & -> & Hseq & Horig & _).
     assert (Hne : its <> []) by (intros ->; cbn in Horig; discriminate).
     destruct (iseq_from_iseq dec2f dec2d _ _ _ _ Hseq Hne) as (sepz & T & -> & HL & Hsep).
@@ -200,4 +197,248 @@ Proof.
           cbn [map concat length]. rewrite app_length. destruct x; cbn [item_slots length]; lia. }
         rewrite Nat2Z.id. lia.
 Qed.
+
+(* the side condition on the zeroes at list level, as C10's exported theorems state it *)
+Theorem message_reads_tl_nz o addr vs text w :
+  compress o = true -> good_addr addr -> Forall (goodv o) vs -> nozmix vs -> Z.of_nat (length vs) < 2 ^ 31 ->
+  print_message o addr vs 0 = Some (text, w) ->
+  exists slots,
+    expand slots = Some vs /\ (exists sfx, text = addr ++ sfx) /\
+    forall tl, tail_ok tl ->
+    count_printed_arg_vals_of_msg dec2f dec2d (text ++ 10 :: tl) = Ok (true, Z.of_nat (length slots)) /\
+    scan_message dec2f dec2d (text ++ 10 :: tl) (Z.of_nat (length slots)) = Ok (addr, slots, tl).
+Proof.
+  intros Hon Ha Hg Hnz. destruct (zero_choice o vs Hg Hnz) as (zf & zd & Hz & Hg').
+  exact (message_reads_tl_z o zf zd addr vs text w Hon Hz Ha Hg').
+Qed.
+
+(* stage 5's statement: the fragment without floats, bare symbols and blobs *)
+Theorem message_reads_tl o addr vs text w :
+  compress o = true -> good_addr addr -> Forall goodc0 vs -> Z.of_nat (length vs) < 2 ^ 31 ->
+  print_message o addr vs 0 = Some (text, w) ->
+  exists slots,
+    expand slots = Some vs /\ (exists sfx, text = addr ++ sfx) /\
+    forall tl, tail_ok tl ->
+    count_printed_arg_vals_of_msg dec2f dec2d (text ++ 10 :: tl) = Ok (true, Z.of_nat (length slots)) /\
+    scan_message dec2f dec2d (text ++ 10 :: tl) (Z.of_nat (length slots)) = Ok (addr, slots, tl).
+Proof.
+  intros Hon Ha Hg. apply (message_reads_tl_z o 0 0 addr vs text w Hon); try assumption.
+  - split; left; reflexivity.
+  - eapply Forall_impl; [|exact Hg]. intros a Hx. left. exact Hx.
+Qed.
 End Msg.
+
+(* ------------------------------------------------------------------------- *)
+(* a message whose values are ONE array ("/addr [e1 e2 ...]", the line of a   *)
+(* "name#N" port), a line feed, and what follows.  Any option record: runs     *)
+(* inside the array become "NxV" / "a ... b", line breaks fall between the     *)
+(* elements, the array may put its own line break over the blank behind the    *)
+(* address.                                                                     *)
+Section ArrMsg.
+Variables dec2f dec2d : list Z -> Z.
+
+Theorem array_message_reads_tl_z o zf zd addr ty elems text w :
+  zchoice zf zd -> good_addr addr -> Forall (goodc o zf zd) elems -> homog elems -> elems <> [] ->
+  Z.of_nat (length elems) + 1 < 2 ^ 31 ->
+  print_message o addr (VArr ty (Z.of_nat (length elems)) :: elems) 0 = Some (text, w) ->
+  exists ty' slots,
+    expand slots = Some elems /\ (exists sfx, text = addr ++ sfx) /\
+    forall tl, tail_ok tl ->
+    count_printed_arg_vals_of_msg dec2f dec2d (text ++ 10 :: tl) = Ok (true, 1 + Z.of_nat (length slots)) /\
+    scan_message dec2f dec2d (text ++ 10 :: tl) (1 + Z.of_nat (length slots))
+    = Ok (addr, VArr ty' (Z.of_nat (length slots)) :: slots, tl).
+Proof.
+  intros Hz [[ar Ea] Hns] Hg Hh Hne Hlen Hp. unfold print_message in Hp. cbn [length] in Hp.
+  remember (S (length elems)) as f1 eqn:Ef1. cbn [print_vals_loop] in Hp.
+  replace (Z.of_nat f1 <=? 0) with false in Hp by lia.
+  replace (Z.of_nat f1 - 0) with (Z.of_nat (length elems) + 1) in Hp by lia.
+  rewrite conv_single_array in Hp. cbn [print_arg_val_top] in Hp.
+  match type of Hp with context [print_array ?a ?b ?c ?d ?e ?f] => 
+    destruct (print_array a b c d e f) as [[[[t tmp] cols1] bb]|] eqn:Epa; [|discriminate] end.
+  change (breaks_itself (av_type (VArr ty (Z.of_nat (length elems))))) with true in Hp.
+  cbv beta iota zeta in Hp. cbn [orb negb andb] in Hp.
+  cbn [next_arg_offset] in Hp.
+  replace (0 + (Z.of_nat (length elems) + 1) <? Z.of_nat f1) with false in Hp by lia.
+  subst f1. cbn [print_vals_loop] in Hp.
+  assert (E : Z.of_nat (S (length elems)) <=? 0 + (Z.of_nat (length elems) + 1) = true) by (apply Z.leb_le; lia).
+  rewrite E in Hp. clear E.
+  rewrite andb_false_r in Hp.
+  replace (Z.of_nat (S (length elems)) =? 0) with false in Hp by (symmetry; apply Z.eqb_neq; lia).
+  inversion Hp; subst text w. clear Hp.
+  destruct elems as [|a0 rest]; [congruence|].
+  destruct (print_array_iseq dec2f dec2d o print_arr zf zd Hz _ ty (a0 :: rest) _ true t tmp cols1 bb Hg ltac:(lia) eq_refl
+              ltac:(discriminate) Epa) as (its & T & -> & -> & Hseq & Horig & Hne').
+  destruct (iseq_from_iseq dec2f dec2d _ _ _ _ Hseq Hne') as (sepz & T' & -> & HL & ->). cbn [app].
+  assert (Hty : atys_ok 0 its).
+  { apply (atys_from (a0 :: rest) Hh); [|left; reflexivity].
+    intros v tt Hin. rewrite <- Horig. exact (ival_in _ _ _ Hin). }
+  exists (lty 32 its), (islots its).
+  split; [rewrite <- Horig; exact (expand_items dec2f dec2d _ _ _ HL)|].
+  split; [eexists; reflexivity|].
+  intros tl Htl.
+  destruct (array_reads dec2f dec2d its T' HL Hne' Hty (10 :: tl) (rest_ok_nl tl Htl)) as [Hs Hc].
+  set (sepA := if bb then 10 :: sp4 else [32]).
+  set (X := 91 :: T' ++ 93 :: 10 :: tl).
+  assert (Etxt : (addr ++ (if bb then [10] else [32]) ++ (if bb then sp4 else []) ++ 91 :: T' ++ [93]) ++ 10 :: tl
+                 = addr ++ sepA ++ X).
+  { unfold sepA, X. destruct bb; rewrite <- !app_assoc; cbn [app]; rewrite <- ?app_assoc; reflexivity. }
+  rewrite Etxt. clear Etxt.
+  assert (Hsk : forall tail f, skip_comments_ws f (addr ++ tail) = addr ++ tail)
+    by (intros; rewrite Ea; cbn [app]; apply skip_comments_ws_no; lia).
+  assert (Hhd : forall tail, hd0 (addr ++ tail) = 47) by (intros; rewrite Ea; reflexivity).
+  assert (Hnw : forall tail, skip_ws (addr ++ tail) = addr ++ tail)
+    by (intros; apply skip_ws_nonspace; rewrite Hhd; reflexivity).
+  assert (HsepA : Forall (fun c => isspace c = true) sepA) by (unfold sepA; destruct bb; repeat constructor).
+  assert (Hsp : sepA ++ X = [] \/ isspace (hd0 (sepA ++ X)) = true) by (right; unfold sepA; destruct bb; reflexivity).
+  destruct (dropwhile_nonspace addr (sepA ++ X) Hns Hsp) as [Hd Ht].
+  assert (Hws : skip_ws (sepA ++ X) = X) by (apply skip_ws_sep; [exact HsepA|reflexivity]).
+  assert (HlX : length X = S (S (S (length T' + length tl))))
+    by (unfold X; cbn [length]; rewrite app_length; cbn [length]; lia).
+  unfold count_printed_arg_vals_of_msg, scan_message.
+  rewrite !Hnw, !Hsk, !Hhd. cbn [Z.eqb Pos.eqb negb]. rewrite Hd, Ht, Hws.
+  split.
+  - unfold count_printed_arg_vals. rewrite Hws.
+    replace (skip_comments_ws (S (length X)) X) with X by (unfold X; symmetry; apply skip_comments_ws_no; lia).
+    cbn [count_loop]. replace (hd0 X) with 91 by reflexivity.
+    replace ((91 =? 0) || (91 =? 47)) with false by reflexivity.
+    rewrite HlX. unfold X. rewrite Hs by lia. rewrite (skip_ws_tail tl Htl).
+    destruct (length (sepA ++ 91 :: T' ++ 93 :: 10 :: tl)) eqn:El.
+    { exfalso. rewrite app_length in El. cbn [length] in El. lia. }
+    destruct Htl as [->|[r0 ->]].
+    + cbn [hd0 at_ nth Z.eqb negb andb count_loop orb]. reflexivity.
+    + rewrite hd0_cons. replace (negb (47 =? 0) && negb (isspace 47)) with true by reflexivity.
+      rewrite skip_comments_ws_no by lia. cbn [count_loop]. rewrite hd0_cons.
+      replace ((47 =? 0) || (47 =? 47)) with true by reflexivity. reflexivity.
+  - unfold scan_arg_vals.
+    replace (Z.to_nat (1 + Z.of_nat (length (islots its)))) with (S (length (islots its))) by lia.
+    remember (S (length (islots its))) as f2 eqn:Ef2.
+    cbn [scan_loop]. replace (1 + Z.of_nat (length (islots its)) <=? 0) with false by lia.
+    rewrite HlX. unfold X. rewrite Hc by lia.
+    cbn [length]. rewrite (skip_ws_comments_tail _ tl Htl).
+    subst f2. cbn [scan_loop slots_offset app].
+    replace (1 + Z.of_nat (length (islots its)) <=? 0 + (Z.of_nat (length (islots its)) + 1)) with true by lia.
+    reflexivity.
+Qed.
+
+Theorem array_message_reads_tl_nz o addr ty elems text w :
+  good_addr addr -> Forall (goodv o) elems -> nozmix elems -> homog elems -> elems <> [] ->
+  Z.of_nat (length elems) + 1 < 2 ^ 31 ->
+  print_message o addr (VArr ty (Z.of_nat (length elems)) :: elems) 0 = Some (text, w) ->
+  exists ty' slots,
+    expand slots = Some elems /\ (exists sfx, text = addr ++ sfx) /\
+    forall tl, tail_ok tl ->
+    count_printed_arg_vals_of_msg dec2f dec2d (text ++ 10 :: tl) = Ok (true, 1 + Z.of_nat (length slots)) /\
+    scan_message dec2f dec2d (text ++ 10 :: tl) (1 + Z.of_nat (length slots))
+    = Ok (addr, VArr ty' (Z.of_nat (length slots)) :: slots, tl).
+Proof.
+  intros Ha Hg Hnz. destruct (zero_choice o elems Hg Hnz) as (zf & zd & Hz & Hg').
+  exact (array_message_reads_tl_z o zf zd addr ty elems text w Hz Ha Hg').
+Qed.
+End ArrMsg.
+
+(* ------------------------------------------------------------------------- *)
+(* a message with ONE value (the line of a scalar port).  Four values or fewer *)
+(* are never compressed (rtosc_convert_to_range: size < 5), no range tail can  *)
+(* follow, so nothing is asked about dots: every value whose token C10 reads   *)
+(* back - good_val (strings and chars with '.' included), bare symbols, blobs, *)
+(* and with the lossless option every finite float / double, both zeroes.      *)
+Section OneMsg.
+Variables dec2f dec2d : list Z -> Z.
+
+Definition good1 (o : popts) (v : av) : Prop := good_val v \/ goodx v \/ (lossless o = true /\ goodfin v).
+
+Lemma good1_scalar o v : good1 o v -> scalar v.
+Proof.
+  intros [H|[H|[_ H]]]; destruct v; cbn in H; try contradiction; exact I.
+Qed.
+
+Lemma good1_tok o v cols t w c : good1 o v -> print_scalar o v cols = Some (t, w, c) -> tokof dec2f dec2d v t.
+Proof.
+  intros [Hg|[Hg|[Hl Hg]]] Hp.
+  - exact (proj1 (scalar_tok dec2f dec2d o v cols t w c Hg Hp)).
+  - refine (proj1 (goodc_tok dec2f dec2d o 0 0 v cols t w c _ Hp)). right; left; exact Hg.
+  - destruct v; cbn [goodfin] in Hg; try contradiction.
+    + match type of Hg with (0 <= ?b < _) /\ _ =>
+        refine (proj1 (goodc_tok dec2f dec2d o (if b =? 0 then 2 ^ 31 else 0) 0 _ cols t w c _ Hp));
+        right; right; (split; [exact Hl|]); cbn [goodfl]; destruct Hg as [Hb Hf]; (split; [exact Hb|]); (split; [exact Hf|]);
+        destruct (b =? 0) eqn:E; lia end.
+    + match type of Hg with (0 <= ?b < _) /\ _ =>
+        refine (proj1 (goodc_tok dec2f dec2d o 0 (if b =? 0 then 2 ^ 63 else 0) _ cols t w c _ Hp));
+        right; right; (split; [exact Hl|]); cbn [goodfl]; destruct Hg as [Hb Hf]; (split; [exact Hb|]); (split; [exact Hf|]);
+        destruct (b =? 0) eqn:E; lia end.
+Qed.
+
+Lemma print_message_one o addr v text w : scalar v ->
+  print_message o addr [v] 0 = Some (text, w) ->
+  exists sepz t w' c, print_scalar o v (0 + (len addr + 1)) = Some (t, w', c) /\ text = addr ++ sepz ++ t /\
+                      (sepz = [32] \/ sepz = nl4).
+Proof.
+  intros Hs Hp. unfold print_message in Hp. cbn [length] in Hp. cbn [print_vals_loop] in Hp.
+  change (Z.of_nat 1 <=? 0) with false in Hp. cbv iota in Hp.
+  replace (convert_to_range o [v] (Z.of_nat 1 - 0)) with CNo in Hp by reflexivity.
+  rewrite (print_arg_val_top_scalar o v [] _ None true Hs), (print_arg_val_scalar o v [] _ None Hs) in Hp.
+  destruct (print_scalar o v (0 + (len addr + 1))) as [[[t w'] c]|] eqn:E; [|discriminate].
+  rewrite (next_arg_offset_scalar v [] Hs) in Hp.
+  destruct (if breaks_itself (av_type v) then _ else _) as [[brk_ cols2] awtl2].
+  rewrite orb_false_r, andb_false_r in Hp.
+  change (0 + 1 <? Z.of_nat 1) with false in Hp. cbv iota in Hp.
+  change (Z.of_nat 1 <=? 0 + 1) with true in Hp. cbv iota in Hp.
+  change (Z.of_nat 1 =? 0) with false in Hp. cbv iota in Hp. inversion Hp; subst.
+  exists (if brk_ then nl4 else [32]), t, w', c. split; [reflexivity|]. split; [reflexivity|].
+  destruct brk_; [right|left]; reflexivity.
+Qed.
+
+Theorem one_message_reads_tl o addr v text w :
+  good_addr addr -> good1 o v ->
+  print_message o addr [v] 0 = Some (text, w) ->
+  (exists sfx, text = addr ++ sfx) /\
+  forall tl, tail_ok tl ->
+    count_printed_arg_vals_of_msg dec2f dec2d (text ++ 10 :: tl) = Ok (true, 1) /\
+    scan_message dec2f dec2d (text ++ 10 :: tl) 1 = Ok (addr, [v], tl).
+Proof.
+  intros [[ar Ea] Hns] Hg Hp.
+  pose proof (good1_scalar o v Hg) as Hsc.
+  destruct (print_message_one o addr v text w Hsc Hp) as (sepz & t & w' & c & Eps & -> & Hsepz).
+  pose proof (good1_tok o v _ t w' c Hg Eps) as (Hrd & (c0 & r0 & Et & Hc0) & _).
+  split; [eexists; reflexivity|]. intros tl Htl.
+  assert (Hsk : forall tail f, skip_comments_ws f (addr ++ tail) = addr ++ tail)
+    by (intros; rewrite Ea; cbn [app]; apply skip_comments_ws_no; lia).
+  assert (Hhd : forall tail, hd0 (addr ++ tail) = 47) by (intros; rewrite Ea; reflexivity).
+  assert (Hnw : forall tail, skip_ws (addr ++ tail) = addr ++ tail)
+    by (intros; apply skip_ws_nonspace; rewrite Hhd; reflexivity).
+  assert (HsepA : Forall (fun c => isspace c = true) sepz) by (destruct Hsepz as [->| ->]; repeat constructor).
+  set (X := t ++ 10 :: tl).
+  assert (Etxt : (addr ++ sepz ++ t) ++ 10 :: tl = addr ++ sepz ++ X) by (unfold X; now rewrite <- !app_assoc).
+  rewrite Etxt. clear Etxt.
+  assert (Hsp : sepz ++ X = [] \/ isspace (hd0 (sepz ++ X)) = true) by (right; destruct Hsepz as [->| ->]; reflexivity).
+  destruct (dropwhile_nonspace addr (sepz ++ X) Hns Hsp) as [Hd Ht].
+  destruct Hc0 as (H0 & H47 & H37 & Hspc & H46 & H40).
+  assert (HhX : hd0 X = c0) by (unfold X; rewrite Et; reflexivity).
+  assert (Hws : skip_ws (sepz ++ X) = X) by (apply skip_ws_sep; [exact HsepA|rewrite HhX; exact Hspc]).
+  destruct (Hrd (10 :: tl) (rest_ok_nl tl Htl)) as [Hskip Hscan].
+  assert (HlX : length X = S (length r0 + S (length tl)))
+    by (unfold X; rewrite Et; cbn [length app]; rewrite app_length; cbn [length]; lia).
+  unfold count_printed_arg_vals_of_msg, scan_message.
+  rewrite !Hnw, !Hsk, !Hhd. cbn [Z.eqb Pos.eqb negb]. rewrite Hd, Ht, Hws.
+  split.
+  - unfold count_printed_arg_vals. rewrite Hws.
+    replace (skip_comments_ws (S (length X)) X) with X
+      by (unfold X; rewrite Et; symmetry; apply skip_comments_ws_no; assumption).
+    cbn [count_loop]. rewrite HhX. replace ((c0 =? 0) || (c0 =? 47)) with false by lia.
+    rewrite HlX. unfold X. rewrite Hskip. rewrite (skip_ws_tail tl Htl).
+    destruct (length (sepz ++ t ++ 10 :: tl)) eqn:El.
+    { exfalso. rewrite !app_length in El. cbn [length] in El. destruct Hsepz as [->| ->]; cbn in El; lia. }
+    destruct Htl as [->|[r1 ->]].
+    + cbn [hd0 at_ nth Z.eqb negb andb count_loop orb]. reflexivity.
+    + rewrite hd0_cons. replace (negb (47 =? 0) && negb (isspace 47)) with true by reflexivity.
+      rewrite skip_comments_ws_no by lia. cbn [count_loop]. rewrite hd0_cons.
+      replace ((47 =? 0) || (47 =? 47)) with true by reflexivity. reflexivity.
+  - unfold scan_arg_vals. change (Z.to_nat 1) with 1%nat.
+    remember 1%nat as f2 eqn:Ef2. cbn [scan_loop]. change (1 <=? 0) with false. cbv iota.
+    rewrite HlX. unfold X. rewrite Hscan.
+    cbn [length]. rewrite (skip_ws_comments_tail _ tl Htl).
+    subst f2. cbn [scan_loop app].
+    replace (slots_offset [v]) with 1 by (destruct v; cbn in Hsc; try contradiction; reflexivity).
+    reflexivity.
+Qed.
+End OneMsg.
